@@ -207,6 +207,202 @@ def known_repros(ctx, rng, dtr, gtr, ftr):
         record_fit(ctx, rng, "repro%d" % seed, km, X, n, k, 2, "gain", False, seed, 4, False, dtr, gtr, ftr)
 
 
+class ScriptedState:
+    """stands for the RandomState handed to the quota set-up: returns a scripted sequence of cluster indices"""
+
+    def __init__(self, seq):
+        self.seq = list(seq)
+
+    def randint(self, lo, hi=None, size=None):
+        return self.seq.pop(0) if self.seq else 0
+
+
+def _parse_states(txt):
+    """states of a TLC -simulate behaviour file: list of (action, dict of variable -> text)"""
+    import re
+    out = []
+    for chunk in re.split(r"\n\\\* <", txt):
+        m = re.match(r"(\w+) ", chunk)
+        act = m.group(1) if m else "Init"
+        vs = {}
+        for vm in re.finditer(r"/\\ (\w+) = ((?:.|\n)*?)(?=\n/\\ |\Z)", chunk):
+            vs[vm.group(1)] = vm.group(2).strip()
+        if vs:
+            out.append((act, vs))
+    return out
+
+
+def _ints(text):
+    import re
+    return [int(v) for v in re.findall(r"-?\d+", text)]
+
+
+def s2c_gain(ctx, count):
+    """Spec -> code for strategy 'gain': simulated QuotaGain behaviours (initial labelling, caps, sequence of Move /
+    XSwap / Enqueue decisions) are realised geometrically - point p is the unit vector e_p and centre c has p-th coordinate
+    -eps*G[p,c]/2, so the gain of the pair (p, c) is eps*G[p,c] - with gains solved (linear programme) so that the code's
+    sorted pair list visits the pairs in the behaviour's order and takes the same exchange decisions; the quota set-up is
+    steered by a scripted random state.  The code must then emit exactly the behaviour's decisions."""
+    import glob, os, shutil
+    from scipy.optimize import linprog
+    from mlinsights.mlmodel import _kmeans_constraint_ as KC
+    out = os.path.join(tlc.SCR, "sim-c07g")
+    shutil.rmtree(out, ignore_errors=True)
+    os.makedirs(out)
+    cfg = ("SPECIFICATION Spec\nCONSTANTS MaxN = 7\n MaxK = 3\n ExploreSwitch = FALSE\n DEV_CapsAsCoded = FALSE\n"
+           "INVARIANT Histogram\n")
+    res = tlc.run("QuotaGain", cfg, workers=1, simulate="file=%s/tr,num=%d" % (out, count), depth=60, seed=ctx.seed + 23, timeout=900)
+    done = skipped = 0
+    for path in sorted(glob.glob(out + "/tr*")):
+        states = _parse_states(open(path).read())
+        if not states or states[-1][1].get("phase") not in ('"switch"', '"done"'):
+            continue
+        n, k = int(states[0][1]["n"]), int(states[0][1]["k"])
+        lab0 = _ints(states[0][1]["labels"])
+        caps = None
+        acts = []        # (kind, p, dest, q) 1-based
+        prev_lab, prev_moved = lab0, set()
+        enq_order = {}   # (cur, dest) -> list of waiting points in enqueue order
+        ok = True
+        for act, vs in states[1:]:
+            lab = _ints(vs["labels"])
+            moved = set(_ints(vs["moved"]))
+            if act == "Setup":
+                caps = _ints(vs["leftclose"])
+            elif act in ("DoMove", "DoXSwap", "DoEnqueue"):
+                if act == "DoEnqueue":
+                    # which pair left `todo`: the point whose transfer set grew is not directly visible: use todo difference
+                    pass
+                acts.append((act, prev_lab, lab, prev_moved, moved, vs))
+            prev_lab, prev_moved = lab, moved
+        if caps is None:
+            continue
+        # reconstruct (p, dest[, q]) per action from consecutive states (todo sets)
+        seq = []
+        prev_todo = None
+        st_todo = [set(zip(*[iter(_ints(vs["todo"]))] * 2)) for a_, vs in states]
+        for idx in range(1, len(states)):
+            act = states[idx][0]
+            if act not in ("DoMove", "DoXSwap", "DoEnqueue"):
+                continue
+            gone = st_todo[idx - 1] - st_todo[idx]
+            if len(gone) != 1:
+                ok = False
+                break
+            (p, dest), = gone
+            lab_b, lab_a = _ints(states[idx - 1][1]["labels"]), _ints(states[idx][1]["labels"])
+            cur = lab_b[p - 1]
+            q = None
+            if act == "DoXSwap":
+                ch = [i + 1 for i in range(n) if lab_b[i] != lab_a[i] and i + 1 != p]
+                q = ch[0] if ch else None
+                if q is None:
+                    ok = False
+                    break
+            seq.append((act, p, cur, dest, q))
+        if not ok or not seq:
+            continue
+        # gains: one variable per acted pair, increasing along the behaviour; exchange decisions
+        m = len(seq)
+        A, b = [], []
+        delta = 0.02
+        for i in range(m - 1):
+            row = [0.0] * m
+            row[i], row[i + 1] = 1.0, -1.0
+            A.append(row)
+            b.append(-delta)
+        waiting = {}
+        feasible = True
+        for i, (act, p, cur, dest, q) in enumerate(seq):
+            if act == "DoMove":
+                continue
+            lst = [j for j in waiting.get((dest, cur), []) if seq[j][1] not in _moved_before(seq, i)]
+            if act == "DoXSwap":
+                if not lst or seq[lst[0]][1] != q:
+                    feasible = False          # TLC exchanged with a point that is not the head of the sorted list
+                    break
+                row = [0.0] * m
+                row[i] += 1.0
+                row[lst[0]] += 1.0
+                A.append(row)
+                b.append(-delta)              # g_head + gain < 0
+            else:
+                if lst:
+                    row = [0.0] * m
+                    row[i] -= 1.0
+                    row[lst[0]] -= 1.0
+                    A.append(row)
+                    b.append(-delta)          # g_head + gain >= delta
+                waiting.setdefault((cur, dest), []).append(i)
+        if not feasible:
+            skipped += 1
+            continue
+        lp = linprog([0.0] * m, A_ub=A, b_ub=b, bounds=[(-1, 1)] * m, method="highs")
+        if not lp.success:
+            skipped += 1
+            continue
+        G = numpy.full((n, k), 5.0)           # pairs the behaviour never acts on come last
+        for i, (act, p, cur, dest, q) in enumerate(seq):
+            G[p - 1, dest - 1] = lp.x[i]
+        for p in range(n):
+            G[p, lab0[p] - 1] = 0.0
+        eps = 1e-4
+        X = numpy.eye(n)
+        C = numpy.zeros((k, n))
+        for p in range(n):
+            for c in range(k):
+                C[c, p] = -eps * G[p, c] / 2.0
+        labels = numpy.array([v - 1 for v in lab0], dtype=numpy.int32)
+        counters = numpy.zeros((k,), dtype=numpy.int32)
+        leftclose = numpy.zeros((k,), dtype=numpy.int32)
+        dclose = numpy.zeros((n,), dtype=numpy.float64)
+        limit = n // k
+        leftover = n - limit * k
+        # script the quota set-up towards the behaviour's caps
+        cnt0 = [lab0.count(c + 1) for c in range(k)]
+        start = [1 if cnt0[c] - limit > 0 else 0 for c in range(k)]
+        script = [c for c in range(k) if start[c] != caps[c]]
+        from sklearn.utils.extmath import row_norms
+        numpy.random.seed(3)
+        origperm = numpy.random.permutation
+        try:
+            with Sink() as ev:
+                KC._constraint_association_gain(leftover, counters, labels, leftclose, dclose, C, X, row_norms(X, squared=True),
+                                                limit, "gain", state=ScriptedState(script + script))
+        except AssertionError:
+            ev = list(ev)
+        except Exception as e:
+            ctx.violation("CallSucceeds", SITE_G, "s2c", repr(e), case=dict(seq=seq, lab0=lab0, caps=caps))
+            continue
+        done += 1
+        ctx.traces += 1
+        ctx.case(("s2c-gain", n, k, tuple(lab0), tuple(caps), tuple((a, p, d) for a, p, c_, d, q in seq)), nontrivial=any(a == "DoXSwap" for a, *_ in seq),
+                 sample=dict(kind="s2c-gain", n=n, k=k, labels=lab0, caps=caps, decisions=[(a[2:], p, d) for a, p, c_, d, q in seq][:8]))
+        got_caps = [e["leftclose"] for nm, e in ev if nm == "gain_begin"]
+        got = [(dict(move="DoMove", xswap="DoXSwap", enqueue="DoEnqueue")[nm], e["p"] + 1, e["dest"] + 1) for nm, e in ev
+               if nm in ("move", "xswap", "enqueue")]
+        want = [(a, p, d) for a, p, c_, d, q in seq]
+        if got_caps and got_caps[0] != caps:
+            ctx.skipped.append("s2c-gain: scripted set-up did not reach the behaviour's caps")
+            continue
+        if got != want:
+            ctx.violation("SameBehaviour", SITE_G, "s2c", dict(got=got[:12], want=want[:12]), case=dict(lab0=lab0, caps=caps, n=n, k=k))
+    shutil.rmtree(out, ignore_errors=True)
+    ctx.extra["s2c_gain"] = dict(replayed=done, not_realisable=skipped)
+    return done
+
+
+def _moved_before(seq, i):
+    mv = set()
+    for act, p, cur, dest, q in seq[:i]:
+        if act == "DoMove":
+            mv.add(p)
+        elif act == "DoXSwap":
+            mv.add(p)
+            mv.add(q)
+    return mv
+
+
 def run(ctx):
     boot.load()
     thorough = ctx.tier == "thorough"
@@ -237,6 +433,7 @@ def run(ctx):
         "INVARIANT BalancedUnlessExhausted\n", workers=16, timeout=900), expect_violation="BalancedUnlessExhausted")
 
     ns2c = s2c_distance(ctx, 600 if thorough else 150)
+    ns2g = s2c_gain(ctx, 1500 if thorough else 300)
 
     # ---- C2S
     rng = ctx.rng
